@@ -39,6 +39,8 @@ type BatchResult struct {
 	PerturbHits    int64          `json:"perturb_hits"`
 	MustNotStart   int64          `json:"must_not_start_jobs"`
 	DeadCtxJobs    int64          `json:"dead_ctx_jobs"`
+	BareCtxErrJobs int64          `json:"bare_ctx_err_jobs"`
+	NestedErrJobs  int64          `json:"nested_err_jobs"`
 	Failures       int64          `json:"failed_jobs"`
 	Goexits        int64          `json:"goexit_jobs"`
 	Blocked        int64          `json:"transitively_blocked_jobs"`
@@ -156,6 +158,8 @@ func RunBatch(seed uint64, family string, from, count int, quiet bool, progressF
 		br.ExactStates += int64(st.ExactStates)
 		br.MustNotStart += int64(st.MustNotStart)
 		br.DeadCtxJobs += int64(st.DeadCtxReached)
+		br.BareCtxErrJobs += int64(st.BareCtxErrJobs)
+		br.NestedErrJobs += int64(st.NestedErrJobs)
 		br.Failures += int64(st.Failures)
 		br.Goexits += int64(st.Goexits)
 		br.Blocked += int64(st.TransitiveBlocked)
